@@ -34,10 +34,10 @@ class TabularPOMDP(TabularMarkovDecisionProcess, PartiallyObservableMDP):
         consistent for a particular instance.
         """
         logger.info("Observation space unspecified; performing reachability analysis.")
-        obs = set([])
+        obs = {} # used as an insertion-ordered set: keeps the unsortable fallback below deterministic
         for a in self.action_list:
             for ns in self.state_list:
-                obs.update([o for o, p in self.observation_dist(a, ns).items() if p > 0.])
+                obs.update({o: None for o, p in self.observation_dist(a, ns).items() if p > 0.})
         try:
             return sorted(obs)
         except TypeError: #unsortable representation
